@@ -133,7 +133,16 @@ pub fn run(args: &[String]) -> Value {
                     break;
                 }
                 n_repl += 1;
+                let before = identity(&interp);
                 let o = feed(&mut interp, &chunk);
+                if let Out::Rejected(_) = &o {
+                    // an input the checker refuses must leave the interpreter exactly as it was
+                    let after = identity(&interp);
+                    if before != after {
+                        mm.push("rejected-input-modifies-interpreter", json!({"id": case["id"], "split": mask, "input": chunk,
+                            "what": format!("{before:?} -> {after:?}")}));
+                    }
+                }
                 match (&o, &batch[end - 1].0) {
                     (Out::Panic(m), _) => {
                         mm.push("panic", json!({"id": case["id"], "split": mask, "input": chunk, "what": m}));
